@@ -220,6 +220,21 @@ def stress_scenarios(seed, thorough):
     return out
 
 
+def once_scenarios(seed, thorough):
+    """once-only API (Close / Shutdown) called by many goroutines at the same moment, many repetitions"""
+    rnd = random.Random(seed + 29)
+    k = 3 if thorough else 1
+    out = []
+    for mode, n, reps in (("close-fresh", 8, 3000), ("close", 8, 150), ("shutdown", 4, 60), ("mixed", 6, 100), ("close-connect", 6, 150)):
+        out.append(dict(id="once-" + mode, mode=mode, n=n, reps=reps * k, seed=rnd.randrange(1 << 20)))
+    return out
+
+
+def backoff_lines(seed, thorough):
+    rnd = random.Random(seed + 31)
+    return ["bo b%d %d %d %d" % (i, rnd.randrange(1, 1000), 4, 300 if not thorough else 800) for i in range(2 if thorough else 1)]
+
+
 def driver_lines(seed, thorough):
     rnd = random.Random(seed + 13)
     lines = []
@@ -336,7 +351,7 @@ def run_proc(exe, test, text, tag, timeout=120):
     for f in sorted(glob.glob(logbase + ".*")):
         rtext += open(f, errors="replace").read() + "\n"
         os.remove(f)
-    return dict(rc=rc, lines=lines, log=log, reports=parse_reports(rtext), tag=tag)
+    return dict(rc=rc, lines=lines, log=log, reports=parse_reports(rtext)[:40], tag=tag)
 
 
 def run(tier, seed, replay=None):
@@ -358,6 +373,10 @@ def run(tier, seed, replay=None):
         "Go memory model edges as in Race/Discipline.v (hb): program order, unlock->lock (RWMutex: one side a writer), k-th send->k-th "
         "receive, close->receive, go statement, WaitGroup Done->Wait; sync/atomic accesses never race with each other",
         "race detector (go test -race, ThreadSanitizer runtime): reports only races that occur in the executed schedules",
+        "package-level variables of the four parsed files are locations too (every role is foreign to them; a method call on a variable of "
+        "an external, not known-safe type counts as a write; declaration-time initialisation happens-before main; sync.Once.Do bodies count "
+        "as construction); atomic check-then-act (Load then Store without CAS in one function) is a syntactic lint; the once-only "
+        "postcondition of Close/Shutdown is a MEASUREMENT over the stress repetitions",
         "version consistency (last clause) is a MEASUREMENT: frames the scripted reader receives that were certainly written after "
         "Connect became ready (requests, CloseConnection, acks of keep-alives sent after ready) must carry min(client max, reader max); "
         "frames written during negotiation may carry the configured maximum; plus a syntactic stale-read scan for Client.version",
@@ -411,6 +430,11 @@ def run(tier, seed, replay=None):
         for s in stress_scenarios(seed, thorough):
             txt = json.dumps(s) + "\n"
             jobs.append((exe_l, "TestVerifClientStress", txt, s["id"], dict(pkg="llrp", test="TestVerifClientStress", text=txt)))
+        for s in once_scenarios(seed, thorough):
+            txt = json.dumps(s) + "\n"
+            jobs.append((exe_l, "TestVerifC20Once", txt, s["id"], dict(pkg="llrp", test="TestVerifC20Once", text=txt)))
+        for k, ln in enumerate(backoff_lines(seed, thorough)):
+            jobs.append((exe_d, "TestVerifC20Backoff", ln + "\n", "backoff%d" % k, dict(pkg="driver", test="TestVerifC20Backoff", text=ln + "\n")))
         dl = driver_lines(seed, thorough)
         for k in range(0, len(dl), 4):
             txt = "\n".join(dl[k:k + 4]) + "\n"
@@ -428,8 +452,16 @@ def run(tier, seed, replay=None):
                       % (st["func"], st["field"], st["var"], st["file"], st["store_line"], st["file"], st["block_line"], st["file"], st["use_line"]),
                       dict(kind="stale-read", stale_read=st), found_input=False)
 
+    # atomic check-then-act: Load ... Store of one variable in a function without a read-modify-write
+    for ct in (table or {}).get("check_then_act", []):
+        res.violation("check-then-act:%s:%s" % (ct["loc"], ct["func"]),
+                      "%s atomically loads %s (%s:%d) and later atomically stores it (%s:%d) without CompareAndSwap/Swap/Add: two goroutines can "
+                      "both pass the load before either stores (check-then-act) — neither a lock discipline nor the race detector objects, "
+                      "but 'once only' is lost" % (ct["func"], ct["loc"], ct["file"], ct["load_line"], ct["file"], ct["store_line"]),
+                      dict(kind="check-then-act", check_then_act=ct), found_input=False)
+
     bad = set(w1["bad"])
-    judged_frames = 0
+    judged_frames = once_reps = 0
     KINDS = {72: "KeepAliveAck", 14: "CloseConnection", 1023: "request"}
     evals = nontriv = nreports = 0
     dist, samples, seen_nt = {}, [], set()
@@ -451,6 +483,15 @@ def run(tier, seed, replay=None):
                 nt = nt or o.get("acks", 0) > 0 or ncal >= 2 or bool(o.get("frames")) or bool(o.get("calls"))
                 # the property's last clause, evaluated on what the reader received: frames certainly written after
                 # Connect became ready must carry the negotiated version
+                # once-only postcondition, evaluated by the harness per repetition (see TestVerifC20Once)
+                if "once_bad" in o:
+                    once_reps += o.get("reps", 0)
+                    for b in (o.get("once_bad") or [])[:1]:
+                        res.violation("once-only:" + o.get("mode", "?"), "%d goroutines calling %s at once (repetition %d of %d): %d calls returned nil, "
+                                      "%d returned neither nil nor ErrClientClosed, panics: %s — Close/Shutdown must succeed for at most one caller "
+                                      "and never panic" % (o.get("n", 0), o.get("mode"), b["rep"], o.get("reps", 0), b["nil"], b["other"],
+                                                           b.get("panics") or "none"),
+                                      dict(kind="once-only", scenarios=[job[4]], observed=o))
                 want = o.get("want_version") or 0
                 for fr in (o.get("post_frames") or []) if want else []:
                     judged_frames += 1
@@ -540,11 +581,13 @@ def run(tier, seed, replay=None):
     res.coverage.update(evaluations=evals, distinct_nontrivial=nontriv,
                         rule="one evaluation = one scenario process under the race detector (own Client scenarios: negotiation with keep-alives and "
                              "queued requests, callers sending/cancelling, close/shutdown/hang-up during traffic, negotiation failures with and "
-                             "without the default logger; client-core scripts and stress runs; LLRPDevice/Driver scenarios: C15 supervision "
+                             "without the default logger; client-core scripts and stress runs; once-only API stress: Close/Shutdown called by 4-8 goroutines at the same moment, 60-3000 repetitions per mode, "
+                             "postcondition 'at most one nil, no panic' checked per repetition; LLRPDevice/Driver scenarios: several supervisors and "
+                             "retrying senders backing off concurrently with jitter; C15 supervision "
                              "scripts, C13 publish scenarios, concurrent TrySend/UpdateDevice/RemoveDevice/Stop). Distinct by request text; "
                              "non-trivial iff the answer shows >= 2 goroutines of the library at work (keep-alives acknowledged, >= 2 caller "
                              "results, a handshake, or published events)",
                         samples=samples, input_distribution=dist, traces_validated_against_impl=evals,
-                        frames_version_judged=judged_frames, race_reports_parsed=nreports, race_fields={f: len(w) for f, w in witnesses.items()},
+                        frames_version_judged=judged_frames, once_only_repetitions=once_reps, race_reports_parsed=nreports, race_fields={f: len(w) for f, w in witnesses.items()},
                         crashes=len(crashes), trusted_base=res.assumptions)
     return res.finish()
